@@ -57,8 +57,8 @@ static void run_rand(uint64_t idx, pv_rng* rng) {
     uint8_t delivered[19]; memcpy(delivered, pv_w->rand_delivered, 19);
     pv_api_store(s, g_img);
     uint8_t want[19]; memcpy(want, delivered, 19); want[18] &= 0x3f;
-    if (memcmp(g_img + 10, want, 19)) { ok = false; pv_violation("C18/secret-differs-from-random-output", "random source delivered %s, seed holds %s", pv_hex(delivered, 19), pv_hex(g_img + 10, 19)); }
-    if (memcmp(delivered, script, 19)) pv_fatal("C18: world did not deliver the script");
+    if (ok && memcmp(g_img + 10, want, 19)) { ok = false; pv_violation("C18/secret-differs-from-random-output", "random source delivered %s, seed holds %s", pv_hex(delivered, 19), pv_hex(g_img + 10, 19)); }
+    if (ok && memcmp(delivered, script, 19)) pv_fatal("C18: world did not deliver the script");
     uint64_t B = pv_api_get_birthday(s);
     if (B != pv_m_birthday_time(pv_m_birthday_of(t))) { ok = false; pv_violation("C18/birthday-not-from-injected-clock", "clock %llu, birthday %llu", (unsigned long long)t, (unsigned long long)B); }
     if (ok) { PV_DISTINCT("nontrivial", pv_mix(pv_hash(script, 19, 18), t)); PV_COUNT("rand.creates_ok", 1); if (idx < 152) PV_COUNT("rand.single_bit_patterns_ok", 1); }
